@@ -218,6 +218,15 @@ func c19Run(c c19Case) []mc.Finding {
 			if tm.AfterSecond != 90 && tm.AfterSecond != 91 {
 				bad("429-delay", "Retry-After date +90.3s gave %d", tm.AfterSecond)
 			}
+		case "", "garbage":
+			// no usable delay was given: none is invented (the caller requeues at once)
+			if tm.AfterSecond != 0 {
+				bad("429-delay", "Retry-After %q (nothing usable) gave a delay of %d s, want 0", c.Retry, tm.AfterSecond)
+			}
+		case "past-date":
+			if tm.AfterSecond > 0 || tm.AfterSecond < -91 {
+				bad("429-delay", "Retry-After date -90s gave %d", tm.AfterSecond)
+			}
 		}
 	case wantOK:
 		c19Outcome = "ok"
